@@ -449,6 +449,53 @@ pub fn run(ctx: &Ctx) -> Report {
                 }
                 rep.samples.push(json!({"deep_search": fen, "results": deep}));
             }
+            // deep searches of decided endings and mating attacks (tiny trees, depth 9-12): many root
+            // moves cost exactly the same there, so anything that orders equals differently from
+            // process to process (hash-map iteration order, addresses) changes the node count
+            {
+                let sparse: [(&str, u32); 8] = [
+                    ("6k1/6p1/8/6KQ/1r6/q2b4/8/8 w - - 0 32", 11),
+                    ("8/8/1p1kp1p1/p1pr1n1p/P6P/1R4P1/1P3PK1/1R6 b - - 15 45", 8),
+                    ("7k/8/8/8/P7/8/8/6K1 w - - 0 1", 12),
+                    ("8/8/8/3k4/8/3K4/4P3/7R w - - 10 80", 10),
+                    ("8/5k2/8/8/8/2Q5/8/K7 w - - 0 1", 10),
+                    ("4k3/8/8/8/8/8/3PP3/4K3 b - - 0 1", 12),
+                    ("8/8/8/8/2n5/1k6/8/K1B5 b - - 4 60", 10),
+                    ("r3k3/8/8/8/8/8/8/4K2R w K - 0 1", 9),
+                ];
+                for (fen, depth) in sparse.iter().take(ctx.tier.pick(5, 8)) {
+                    let run4 = |depth: u32| -> Vec<(String, String)> {
+                        let mut engines: Vec<Engine> = vec![];
+                        for _ in 0..4 {
+                            if let Ok(mut e) = Engine::spawn(&ctx.engine, &[]) {
+                                e.send(&format!("position fen {fen}"));
+                                e.send(&format!("go depth {depth}"));
+                                engines.push(e);
+                            }
+                        }
+                        let mut out = vec![];
+                        for e in engines.iter_mut() {
+                            let best = e.wait_for(Duration::from_secs(300), |ev| (ev.stream == Stream::Out && ev.line.starts_with("bestmove")) || ev.eof);
+                            let nodes = e.stdout_lines().iter().rev().find(|l| l.line.starts_with("info")).and_then(|l| {
+                                let toks: Vec<&str> = l.line.split_whitespace().collect();
+                                toks.iter().position(|t| *t == "nodes").and_then(|i| toks.get(i + 1)).map(|s| s.to_string())
+                            });
+                            out.push((best.map(|b| b.line).unwrap_or_default(), nodes.unwrap_or_default()));
+                            e.send("quit");
+                        }
+                        out
+                    };
+                    let r = run4(*depth);
+                    rep.eval(r.len() as u64);
+                    rep.class("deep-search-of-a-sparse-position x4 processes");
+                    rep.nontrivial(o::hash_str(&format!("deep-sparse|{fen}|{depth}")));
+                    if r.iter().any(|x| x.0.is_empty() || x.1.is_empty()) {
+                        rep.class("deep-sparse:unanswered-within-300s(not compared)");
+                    } else if r.iter().any(|x| x != &r[0]) {
+                        rep.violation(Violation::new("across-processes", "across-processes/deep-sparse-differs", format!("'position fen {fen}' + 'go depth {depth}' answered differently in four fresh engine processes: {r:?}"), json!({"fen": fen, "depth": depth})));
+                    }
+                }
+            }
             let opt = run_many(vec![vec![], vec!["setoption name Hash value 1", "setoption name Threads value 1", "setoption name Move Overhead value 10"], vec!["setoption name Hash value 1"]], 6, false);
             rep.eval(opt.len() as u64);
             if opt.len() >= 2 {
@@ -552,5 +599,5 @@ pub fn replay(ctx: &Ctx, case: &Value) -> Report {
 }
 
 pub const LEVEL: &str = "exploration";
-pub const RULE: &str = "(position, depth) = the 62 bench FENs at depth 4-5 (quick) / 5-6 (thorough), corpus positions at depth 3-4 and 30/120 positions WITH game history (10-16 plies of weighted play, so remembered repetitions matter), each searched from an emptied cache 3 times per process in different orders with searches of other positions in between, in 4 separate processes running at the same time as 10 busy-loop processes and as the real 'bench' subcommand (x2 quick / x4 thorough, one run frozen for 6 s by SIGSTOP/SIGCONT); the same searches as the only search of a fresh engine process (x3: plain; after ucinewgame with the command loop held 60 ms after spawning the search; after ucinewgame with 200 ms + the search thread held 30 ms) must equal the long-lived processes' results; one deep search (depth 8 quick / 9 thorough, > 250 000 cache entries) in three concurrent engine processes, one frozen for 1.2 s; a depth-6 search with and without the advertised options set; each worker process starts with a different primer search (other side to move, drawn endings, a game with repetitions) and visits the list in its own rotation, reverse rotation and stride order; draw-rich positions (stalemate traps, fifty-move clocks 96-97, to-and-fro histories) are part of the list; a cold-start storm (4000 quick / 40000 thorough freshly started engine processes, 128 at a time while the busy loops run, the whole input written at once so the first search overlaps with whatever the process does right after start-up) must give one single (bestmove, nodes) answer; oracle = equality of (bestmove, root score, node count) across all repetitions and processes, and of the bench node total. Non-trivial = (position, depth) with >= 1000 nodes, plus the bench comparison; distinct by (position, depth).";
+pub const RULE: &str = "(position, depth) = the 62 bench FENs at depth 4-5 (quick) / 5-6 (thorough), corpus positions at depth 3-4 and 30/120 positions WITH game history (10-16 plies of weighted play, so remembered repetitions matter), each searched from an emptied cache 3 times per process in different orders with searches of other positions in between, in 4 separate processes running at the same time as 10 busy-loop processes and as the real 'bench' subcommand (x2 quick / x4 thorough, one run frozen for 6 s by SIGSTOP/SIGCONT); the same searches as the only search of a fresh engine process (x3: plain; after ucinewgame with the command loop held 60 ms after spawning the search; after ucinewgame with 200 ms + the search thread held 30 ms) must equal the long-lived processes' results; one deep search (depth 8 quick / 9 thorough, > 250 000 cache entries) in three concurrent engine processes, one frozen for 1.2 s; five (quick) / eight (thorough) decided endings and mating attacks searched to depth 8-12 in four fresh processes each (many root moves cost the same there, so an ordering of equals that varies from process to process shows in the node count); a depth-6 search with and without the advertised options set; each worker process starts with a different primer search (other side to move, drawn endings, a game with repetitions) and visits the list in its own rotation, reverse rotation and stride order; draw-rich positions (stalemate traps, fifty-move clocks 96-97, to-and-fro histories) are part of the list; a cold-start storm (4000 quick / 40000 thorough freshly started engine processes, 128 at a time while the busy loops run, the whole input written at once so the first search overlaps with whatever the process does right after start-up) must give one single (bestmove, nodes) answer; oracle = equality of (bestmove, root score, node count) across all repetitions and processes, and of the bench node total. Non-trivial = (position, depth) with >= 1000 nodes, plus the bench comparison; distinct by (position, depth).";
 pub const ASSUMPTIONS: &[&str] = &["equality is the whole oracle; nothing is assumed about which move is best", "machine load is produced by the harness itself (10 busy loops + concurrent bench runs on 16 cores)"];
